@@ -1427,7 +1427,7 @@ def eigen_case(case):
     kw = dict(lam=lam, diff_order=d, weights=relayout(w[pr_][:, pc_], lay(case, 'w')), max_iter=0, tol=np.inf)
     y_in = relayout(y[pr_][:, pc_], lay(case, 'y'))
     if not case.get('default_eigens'):
-        kw['num_eigens'] = g
+        kw['num_eigens'] = int(g[0]) if case.get('scalar_eigens') and g[0] == g[1] else g
     import pybaselines.two_d._whittaker_utils as wu
     seen = []
     orig_solve = wu.WhittakerSystem2D.solve
@@ -1680,6 +1680,30 @@ def enumerated_grid(ctx):
                 found += 1
                 ctx.fail(f'eigen2d:{method}:grid', f'2-D {method} ({M}x{N}, x supplied {xo[0] or "sorted"}, z supplied {xo[1] or "sorted"}, '
                          f'{res[1]}): the returned baseline does not solve the documented reduced system (ratio {res[0]:.3g})', case)
+    # eigen path: the per-axis decompositions.  Each axis' eigenpairs are determined by (points, diff_order, num_eigens)
+    # of THAT axis; the cell square x unequal diff_order x equal num_eigens is where a shared decomposition is wrong
+    for mi, method in enumerate(EIGEN_2D):
+        for square in (True, False):
+            for deq in (True, False):
+                for geq in (True, False):
+                    M, N = (16, 16) if square else [(16, 13), (12, 17)][mi % 2]
+                    d = [2, 2] if deq else [[2, 1], [1, 3], [3, 2]][mi % 3]
+                    g = [6, 6] if geq else [[6, 4], [5, 7]][mi % 2]
+                    y, w, _ = fixed_data2d(M, N, 30 + mi)
+                    case = {'kind': 'eigen2d', 'method': method, 'M': M, 'N': N, 'd': d, 'lam': [50.0, 2.0e3],
+                            'num_eigens': g, 'default_eigens': False, 'scalar_eigens': geq and mi % 2 == 0,
+                            'y': [float(v) for v in y.ravel()], 'w0': [float(v) for v in w.ravel()]}
+                    res = eigen_case(case)
+                    cell = f'{"square" if square else "non-square"}/{"d-equal" if deq else "d-unequal"}/{"g-equal" if geq else "g-unequal"}'
+                    ctx.case(('grid-eigen2d-axes', method, cell), nontrivial=res is not None, kind=f'grid2d-eigen:axes:{cell}')
+                    if res is None:
+                        found += 1
+                        ctx.fail(f'eigen2d:{method}:axes-no-result', f'2-D {method} ({M}x{N}, diff_order={tuple(d)}, num_eigens={tuple(g)}): '
+                                 'no certificate could be evaluated (raised / non-finite) on a plain well-posed grid cell', case)
+                    elif not (res[0] <= 1.0):
+                        found += 1
+                        ctx.fail(f'eigen2d:{method}:axes', f'2-D {method} ({M}x{N} {cell}, diff_order={tuple(d)}, {res[1]}): the returned baseline '
+                                 f'does not solve the documented reduced system of its own per-axis eigenpairs (ratio {res[0]:.3g})', case)
     for li, (ly, lw) in enumerate(LAYOUT_PAIRS_1D):
         nrng = np.random.default_rng(77 + li)
         N, d = 12 + li, 1 + li
@@ -1742,7 +1766,8 @@ def run(ctx):
         'reweighting rules and the loop skeleton are C09/C01; here the loop is lib/Loop.v with abstract reweight/diff/below',
     ]
     ctx.gate()
-    ctx.translate(['GenBands', 'GenC06Vec', 'GenC06Order'])
+    for gen_name in ('GenBands', 'GenC06Vec', 'GenC06Order', 'GenC06EigShare'):
+        ctx.translate([gen_name])     # one at a time: a refusal must not be attributed to the other generators
     ok = ctx.build_props()
     ncap = correspondence(ctx)
     ncap2 = correspondence2d(ctx)
@@ -1768,7 +1793,7 @@ def run(ctx):
              'solver residual, returned array = solver output; their right-hand sides are not re-derived); '
              '2-D: num_eigens=None path of all ten methods (theorems, exact spsolve-input tie on small grids, residual oracle); '
              '2-D eigendecomposition path (num_eigens set): oracle only (reduced-system backward error, span, lam*Sigma term vs an independent SVD-based eigensolver, long axes); '
-             'fixed enumerated grid first (every method x memory layouts F/T/neg/negF/slice/sliceF of data, weights, alpha on both 2-D paths and 1-D; fitter objects with a history of rejected calls; data scaled by 1e-100 / 1e100), random layouts on top; x / z supplied sorted, reversed, rolled and shuffled with user weights (and alpha) for every Whittaker host, certificate in the frame of the supplied data; '
+             'fixed enumerated grid first (every method x memory layouts F/T/neg/negF/slice/sliceF of data, weights, alpha on both 2-D paths and 1-D; fitter objects with a history of rejected calls; data scaled by 1e-100 / 1e100), random layouts on top; x / z supplied sorted, reversed, rolled and shuffled with user weights (and alpha) for every Whittaker host, certificate in the frame of the supplied data; eigen path cells {square, non-square} x {equal, unequal diff_order} x {equal, unequal / scalar num_eigens} for every eigen-capable host; '
              'NOT covered: non-integer eta in the Coq tie (eta=1/4,1/2 only through the oracle), '
              'passes >= 2 of methods other than asls/iasls in the Coq tie (non-dyadic weights; covered by the oracle)')
 
